@@ -274,6 +274,35 @@ def body_gradient_grid(env):
                   abs(float(np.dot(np.array(N) * A, x)) / float(c.bundle_params['area']) - 1) < 1e-9, key='mass_not_conserved')
 
 
+def body_clone_corr(env):
+    """Every assembly of a Reactor is a clone of its template: a region cloned to a flow rate evaluates the same correlations
+    -- the same functions, the same friction factor, flow split and mixing parameters -- as a region constructed directly with
+    that flow rate (concrete evaluation per combination and flow rate; laminar, transition and turbulent bundle Reynolds numbers)."""
+    combo = env.params['combo']          # (flowsplit, friction, mixing)
+    n = env.params['n_ring']
+    kw = dict(corr=(combo[1], combo[0], combo[2]), coolant=fixtures.fixed_material(), duct=fixtures.duct_material())
+    t = fixtures.make_rodded(n, 1, fr=1.0, **kw)
+    for Re in (150.0, 4000.0, 6.0e4):
+        fr = Re * float(t.coolant.viscosity) * float(t.bundle_params['area']) / float(t.bundle_params['de'])
+        c = t.clone(new_flowrate=fr)
+        d = fixtures.make_rodded(n, 1, fr=fr, **kw)
+        for k in ('fs', 'ff', 'mix'):
+            env.holds('Re=%g: the clone uses the %s correlation function of the directly constructed region' % (Re, k),
+                      getattr(c.corr[k], '__module__', None) == getattr(d.corr[k], '__module__', None)
+                      and getattr(c.corr[k], '__name__', None) == getattr(d.corr[k], '__name__', None), key='clone_evaluates_another_correlation')
+        try:
+            for r_ in (c, d):
+                r_._init_static_correlated_params(623.15)
+        except (KeyError, IndexError, TypeError, AttributeError, ZeroDivisionError, ValueError, StopIteration) as ex:
+            env.holds('Re=%g: both can be evaluated (%s)' % (Re, repr(ex)[:80]), combo[0] in ('CTD', 'UCTD') and combo[1] not in ('CTD', 'UCTD'),
+                      key='clone_evaluates_another_correlation')
+            continue
+        for k in ('fs', 'ff', 'eddy', 'swirl', 'Re_sc'):
+            a, b = np.asarray(c.coolant_int_params[k], dtype=float), np.asarray(d.coolant_int_params[k], dtype=float)
+            env.holds('Re=%g: %s of the clone = %s of the directly constructed region (1e-12 relative)' % (Re, k, k),
+                      a.shape == b.shape and bool(np.allclose(a, b, rtol=1e-12, atol=0, equal_nan=True)), key='clone_evaluates_another_correlation')
+
+
 def _for_body(func):
     """Lift the body of the first for-loop of `func` (symx.loops works on while loops; same idea)."""
     import ast
@@ -315,6 +344,9 @@ def instances(tier):
     for fs in ('CTD', 'UCTD'):
         for n in ((2, 3, 5) if tier == 'quick' else (2, 3, 4, 5, 7, 9, 12)):
             inst.append(dict(label='ct-gradient[fs=%s,rings=%d]' % (fs, n), body=body_gradient, params={'fs': fs, 'n_ring': n}, check_vacuity=False))
+    for c in (('NOV', 'NOV', 'MIT'), ('MIT', 'ENG', 'MIT'), ('SE2', 'REH', 'KC-BARE'), ('CTD', 'CTD', 'CTD'), ('UCTD', 'UCTD', 'UCTD'), ('MIT', 'CTS', 'MIT'),
+              ('UCTD', 'CTD', 'UCTD'), ('CTD', 'UCTD', 'CTD')):
+        inst.append(dict(label='clone-correlations[fs=%s,ff=%s,mix=%s]' % c, body=body_clone_corr, params={'combo': c, 'n_ring': 3}, check_vacuity=False))
     for fs in ('CTD', 'UCTD'):
         for n, ng, gc in (((2, 2, 'REH'), (3, 4, 'CDD'), (3, 1, 'REH')) if tier == 'quick' else
                           ((2, 1, 'REH'), (2, 2, 'REH'), (2, 4, 'CDD'), (3, 2, 'CDD'), (3, 4, 'REH'), (5, 2, 'REH'), (5, 4, 'CDD'))):
